@@ -388,6 +388,9 @@ func (t *loopTr) wrapLocalErr(x *ast.CallExpr, id *ast.Ident, wv *types.Var) (st
 	if !local || wv.IsField() || !types.Identical(wv.Type(), types.Universe.Lookup("error").Type()) {
 		return "", false
 	}
+	if r, ok := t.ifaceWrapLocalErrOpt(name, wv); ok { // stage 11 (loops_iface.go): the carrier with an optional position
+		return r, true
+	}
 	if t.errAt || t.errOpt || t.inErrLit > 0 {
 		t.fail(x, "fmt.Errorf with %%w of the local error variable %s is only supported in a function whose errors are all plain (no &T{ErrX, off} errors)", id.Name)
 	}
